@@ -18,6 +18,9 @@ setter.
   roles, `ratio = z_slave / z_master` (wheel teeth / worm starts, or starts / teeth when the
   wheel drives; exactly 1 for a joint), the efficiency given or computed by the friction formula,
   the worm flagged self-locking exactly when `f > cos α · tan β`;
+* `drives_eq_declared`: after any sequence of calls, failing ones included, the element an element drives is the
+  slave of the last *accepted* call that named it as master (`declaredFollower`) — the chain is defined by the
+  accepted calls alone;
 * `accepted_ratio_pos`, `accepted_eff_range`;
 * rejection of incompatible pairs: `gear_rejects`, `worm_rejects`, `joint_rejects`;
 * the mathematics the code leaves implicit, `wormEff_range_master`, `wormEff_range_wheel`: the
@@ -421,6 +424,128 @@ theorem joint_post (h : Heap) (m s : Nat) (ws : List W) (hp : jointPlan h m s = 
   rw [gm, gs, hm, hs]
   refine ⟨_, _, gn, rfl, rfl, ?_⟩
   simp [effect, hne, hne']
+
+/-! ### the forward links are those of the accepted declarations
+
+`drives_eq_declared`: after any sequence of declaration calls (failing ones included), the element an element
+drives is the slave of the **last accepted** call that named it as master — or the one it drove before, if no
+call did.  Back-links play no role (`C20.chain_ignores_backlinks`), so the chain a powertrain is assembled from
+is determined by the accepted calls alone. -/
+
+def _root_.Gearpy.Decl.master : Decl → Nat | .gear m _ _ => m | .worm m _ _ => m | .joint m _ => m
+def _root_.Gearpy.Decl.slave : Decl → Nat | .gear _ s _ => s | .worm _ s _ => s | .joint _ s => s
+
+/-- follower of `i` as the accepted declarations define it (`cur`: the follower it has so far) -/
+def declaredFollower (T : Tbl) : Heap → List Decl → Nat → Option Nat → Option Nat
+  | _, [], _, cur => cur
+  | h, d :: ds, i, cur =>
+    declaredFollower T (d.run T h).1 ds i
+      (if (d.run T h).2 = none ∧ d.master = i then some d.slave else cur)
+
+def drivesOf (h : Heap) (i : Nat) : Option Nat := (h[i]?).bind (·.drives)
+
+theorem effect_drives (w : W) (j : Nat) (e : Elem) :
+    (effect w j e).drives = match w with | .drives i k => if i = j then some k else e.drives | _ => e.drives := by
+  cases w <;> simp only [effect] <;> split_ifs <;> rfl
+
+theorem fold_drives (ws : List W) (j : Nat) (e : Elem) :
+    (ws.foldl (fun e w => effect w j e) e).drives =
+      ws.foldl (fun acc w => match w with | .drives i k => if i = j then some k else acc | _ => acc) e.drives := by
+  induction ws generalizing e with
+  | nil => rfl
+  | cons w ws ih => simp only [List.foldl_cons]; rw [ih, effect_drives]
+
+theorem fold_no_drives (rest : List W) (j : Nat) (hrest : ∀ w ∈ rest, ∀ i k, w ≠ .drives i k) (acc : Option Nat) :
+    rest.foldl (fun acc w => match w with | .drives i k => if i = j then some k else acc | _ => acc) acc = acc := by
+  induction rest generalizing acc with
+  | nil => rfl
+  | cons w ws' ih =>
+    simp only [List.foldl_cons]
+    have hw := hrest w (by simp)
+    rw [ih (fun w' hw' => hrest w' (by simp [hw']))]
+    cases w <;> first | rfl | (exact absurd rfl (hw _ _))
+
+/-- an accepted plan whose only `drives` write is the first one, `drives m s` -/
+theorem declare_drives (h : Heap) (ws : List W) (m s : Nat) (rest : List W) (hws : ws = .drives m s :: rest)
+    (hrest : ∀ w ∈ rest, ∀ i k, w ≠ .drives i k) (hacc : ∀ w ∈ ws, Accepted w) (hm : ∃ em, h[m]? = some em) (j : Nat) :
+    (declare h (.ok ws)).2 = none ∧
+      drivesOf (declare h (.ok ws)).1 j = if m = j then some s else drivesOf h j := by
+  unfold declare
+  obtain ⟨g, gn⟩ := writes_get h ws hacc j
+  refine ⟨gn, ?_⟩
+  unfold drivesOf
+  rw [g]
+  have hfold := fold_no_drives rest j hrest
+  cases hj : h[j]? with
+  | none =>
+    simp only [Option.map_none, Option.bind_none]
+    split
+    · rename_i hmj; subst hmj; obtain ⟨em, hem⟩ := hm; rw [hem] at hj; simp at hj
+    · rfl
+  | some e =>
+    simp only [Option.map_some, Option.bind_some]
+    rw [fold_drives, hws]
+    simp only [List.foldl_cons]
+    rw [hfold]
+
+theorem run_drives (T : Tbl) (h : Heap) (d : Decl) (htp : TeethPos h) (j : Nat) :
+    drivesOf (d.run T h).1 j =
+      if (d.run T h).2 = none ∧ d.master = j then some d.slave else drivesOf h j := by
+  cases hr : (d.run T h).2 with
+  | some e =>
+    rw [rejected_unchanged T h d htp e hr]; simp
+  | none =>
+    cases d with
+    | gear m s eta =>
+      simp only [Decl.run, addGearMating] at hr ⊢
+      cases hp : gearPlan T h m s eta with
+      | error e => rw [hp] at hr; simp [declare] at hr
+      | ok ws =>
+        obtain ⟨em, es, hm, hs, _, _, _, g1, g2, _, hws⟩ := gear_plan_shape T h m s eta ws hp
+        have hacc := gear_writes_accepted T h m s eta ws hp (by
+          intro em' es' hm' hs'
+          rw [hm] at hm'; rw [hs] at hs'
+          simp only [Option.some.injEq] at hm' hs'; subst hm' hs'
+          exact ⟨htp m em hm (Or.inl g1), htp s es hs (Or.inl g2)⟩)
+        obtain ⟨_, hd⟩ := declare_drives h ws m s _ hws (by intro w hw i k; simp at hw; rcases hw with rfl | rfl | rfl | rfl | rfl <;> simp) hacc ⟨em, hm⟩ j
+        rw [hd]; simp [Decl.master, Decl.slave]
+    | worm m s f =>
+      simp only [Decl.run, addWormGearMating] at hr ⊢
+      cases hp : wormPlan T h m s f with
+      | error e => rw [hp] at hr; simp [declare] at hr
+      | ok ws =>
+        obtain ⟨em, es, hm, hs, g1, g2, _, _, _, _, _, _, hws⟩ := worm_plan_shape T h m s f ws hp
+        have hacc := worm_writes_accepted T h m s f ws hp (by
+          intro em' es' hm' hs'
+          rw [hm] at hm'; rw [hs] at hs'
+          simp only [Option.some.injEq] at hm' hs'; subst hm' hs'
+          exact ⟨htp m em hm (Or.inr g1), htp s es hs (Or.inr g2)⟩)
+        obtain ⟨_, hd⟩ := declare_drives h ws m s _ hws (by intro w hw i k; simp at hw; rcases hw with rfl | rfl | rfl | rfl | rfl | rfl | rfl <;> simp) hacc ⟨em, hm⟩ j
+        rw [hd]; simp [Decl.master, Decl.slave]
+    | joint m s =>
+      simp only [Decl.run, addFixedJoint] at hr ⊢
+      cases hp : jointPlan h m s with
+      | error e => rw [hp] at hr; simp [declare] at hr
+      | ok ws =>
+        obtain ⟨es, hs, _, _, hws⟩ := joint_plan_shape h m s ws hp
+        have hacc := joint_writes_accepted h m s ws hp
+        have hm : ∃ em, h[m]? = some em := by
+          unfold jointPlan at hp
+          cases hmm : h[m]? with
+          | none => simp [hmm] at hp
+          | some em => exact ⟨em, rfl⟩
+        obtain ⟨_, hd⟩ := declare_drives h ws m s _ hws (by intro w hw i k; simp at hw; rcases hw with rfl | rfl <;> simp) hacc hm j
+        rw [hd]; simp [Decl.master, Decl.slave]
+
+/-- C10/C20: after any sequence of declaration calls, failing ones included, the element that `i` drives is the
+    slave of the last accepted call naming `i` as master (or the one it drove before the sequence) -/
+theorem drives_eq_declared (T : Tbl) (h : Heap) (ds : List Decl) (htp : TeethPos h) (i : Nat) :
+    drivesOf (declareAll T h ds) i = declaredFollower T h ds i (drivesOf h i) := by
+  induction ds generalizing h with
+  | nil => rfl
+  | cons d ds ih =>
+    simp only [declareAll, declaredFollower]
+    rw [ih (d.run T h).1 (run_teeth T h d htp), run_drives T h d htp i]
 
 /-- every accepted relation has ratio > 0 and efficiency within [0, 1] -/
 theorem accepted_ratio_pos (h h' : Heap) (i : Nat) (x : Q) (hw : write h (.ratio i x) = .ok h') : 0 < x := by
